@@ -42,6 +42,7 @@ func checkC09(p *Prog, r *Report) {
 	c09IdentifierCompare(p, r, "C09.identifier-compare")
 	// the current keyspace handed to the parser must keep the USE statement's quoting
 	keyspaceWrites(p, r, "C09.current-keyspace")
+	tokenBased(p, r, "C09.token-based")
 }
 
 func c09Tables(p *Prog, r *Report) {
@@ -680,4 +681,70 @@ func runWithValueRecv(s *Sim, fn *ssa.Function, init *State, fields map[*types.V
 	}
 	s.FieldVals = fields
 	return s.Run(fn, init)
+}
+
+// tokenBased: the parser's entry points hand the statement text to the lexer and to
+// nothing else.  Any other use of the raw text (substring tests, prefix tests, length,
+// comparison) takes a decision without CQL's tokenisation: identifier case folding,
+// quoting and whitespace no longer apply to it.
+func tokenBased(p *Prog, r *Report, rule string) {
+	r.Rule(rule, "the parser's entry points pass the statement text only to the lexer: no decision is taken on the raw text (substring / prefix / length tests bypass case folding and quoting of CQL identifiers)")
+	pkg := p.Pkg("parser")
+	n := 0
+	for _, mem := range sortedMembers(pkg) {
+		fn, ok := mem.(*ssa.Function)
+		if !ok || fn.Blocks == nil || fn.Object() == nil || !fn.Object().Exported() {
+			continue
+		}
+		if _, ex := excludedFiles[p.fileOf(fn)]; ex {
+			continue
+		}
+		// entry points: exported functions that initialise a lexer with one of their string parameters
+		for _, par := range fn.Params {
+			if b, ok := par.Type().Underlying().(*types.Basic); !ok || b.Kind() != types.String {
+				continue
+			}
+			toLexer := false
+			var bad []string
+			for _, ref := range *par.Referrers() {
+				switch x := ref.(type) {
+				case *ssa.DebugRef:
+				case *ssa.Call:
+					if callee := x.Call.StaticCallee(); callee != nil && recvNamedIsFn(callee, "parser", "lexer") {
+						toLexer = true
+					} else {
+						bad = append(bad, fmt.Sprintf("%s: statement text passed to %s", p.Pos(x.Pos()), callDesc(x)))
+					}
+				default:
+					bad = append(bad, fmt.Sprintf("%s: statement text used directly (%T)", p.Pos(ref.Pos()), ref))
+				}
+			}
+			if !toLexer {
+				continue
+			}
+			n++
+			r.check(len(bad) == 0, rule, "parser."+fn.Name()+"("+par.Name()+")", p.Pos(fn.Pos()), "text goes to the lexer only", strings.Join(dedupe(bad), " || "))
+		}
+	}
+	if n < 2 {
+		fatalf("rule %s: only %d parser entry points found that tokenise their text (2 confirmed by hand)", rule, n)
+	}
+}
+
+func recvNamedIsFn(fn *ssa.Function, pkg, typ string) bool {
+	n := recvNamed(fn)
+	return n != nil && n.Obj().Name() == typ && n.Obj().Pkg() != nil && n.Obj().Pkg().Path() == pkgPath(pkg)
+}
+
+func sortedMembers(pkg *ssa.Package) []ssa.Member {
+	var names []string
+	for k := range pkg.Members {
+		names = append(names, k)
+	}
+	sort.Strings(names)
+	var out []ssa.Member
+	for _, k := range names {
+		out = append(out, pkg.Members[k])
+	}
+	return out
 }
